@@ -37,3 +37,23 @@ pub trait ToFeelString {
   /// Converts `FEEL` artifacts into `FEEL` string.
   fn to_feel_string(&self) -> String;
 }
+
+/// Returns the content of a `JSON` string literal (without the surrounding quotation marks)
+/// for the specified text: quotation mark, reverse solidus and control characters are escaped.
+pub(crate) fn json_escape(text: &str) -> String {
+  let mut escaped = String::with_capacity(text.len() + 2);
+  for ch in text.chars() {
+    match ch {
+      '"' => escaped.push_str("\\\""),
+      '\\' => escaped.push_str("\\\\"),
+      '\n' => escaped.push_str("\\n"),
+      '\r' => escaped.push_str("\\r"),
+      '\t' => escaped.push_str("\\t"),
+      '\u{8}' => escaped.push_str("\\b"),
+      '\u{c}' => escaped.push_str("\\f"),
+      c if (c as u32) < 0x20 => escaped.push_str(&format!("\\u{:04x}", c as u32)),
+      c => escaped.push(c),
+    }
+  }
+  escaped
+}
